@@ -104,8 +104,10 @@ def instance_doc(case):
                      "kids": [{"t": "assign", "key": "UNRELATED_A", "value": V_str("active"), "lead": [], "trail": "keep"},
                               {"t": "assign", "key": "UNRELATED_N", "value": V_str("42"), "lead": [], "trail": None},
                               {"t": "zone", "zone": ZONE, "lead": []}]})
-    return {"name": "INSTANCE", "sentinel": None, "frontmatter": None, "meta": [["TYPE", {"v": "str", "s": "T", "cls": "word"}], ["STATUS", V_str("active")]],
-            "sep": False, "body": body, "trailing": []}
+    meta = [["TYPE", {"v": "str", "s": "T", "cls": "word"}], ["STATUS", V_str("active")]]
+    if case.get("unrelated"):
+        meta.append(["NOTE", V_str("a long note " * 30)])  # (a text of several hundred characters)
+    return {"name": "INSTANCE", "sentinel": None, "frontmatter": None, "meta": meta, "sep": False, "body": body, "trailing": []}
 
 
 # ---------------------------------------------------------------------------------------------- diff + reconciliation
@@ -272,6 +274,16 @@ def check(case, root):
                 reconcile("validate", fields, name, nf0, n1, [(r["rule_id"], r.get("before"), r.get("after"), r.get("tier")) for r in (r1.get("repairs") or []) if "rule_id" in r], fails)
             except Exception as e:
                 fails.append(("C11:unlisted:validate:repaired-text-unreadable", f"canonical text after fix is unreadable: {e} | {r1.get('canonical')!r}"))
+            # the same tool instance afterwards: fix off still changes nothing, fix on again logs the same, and the output
+            # flags (compact) do not take the REPAIR records away
+            r0b = tools.validate(content=text, schema=name, fix=False)
+            if r0b.get("status") == "success" and r0b.get("canonical") != r0.get("canonical"):
+                fails.append(("C11:unlisted:validate:fix-off-after-fix-on-changed", f"octave_validate(fix=false) after a fix=true call on the same text returns other content: {r0b.get('canonical')!r} vs {r0.get('canonical')!r}"))
+            logs = lambda r: sorted((x.get("rule_id"), str(x.get("before")), str(x.get("after"))) for x in (r.get("repairs") or []) if "rule_id" in x)  # noqa: E731
+            for view, kw in (("again", {}), ("compact", {"compact": True}), ("diff_only", {"diff_only": True})):
+                r1b = tools.validate(content=text, schema=name, fix=True, **kw)
+                if r1b.get("status") == "success" and logs(r1b) != logs(r1):
+                    fails.append((f"C11:unlisted:validate:repair-log-differs:{view}", f"octave_validate(fix=true, {view}) reports REPAIR records {logs(r1b)}, the first fix=true call {logs(r1)}"))
         # ---- octave_write(lenient=true, schema)
         p = os.path.join(root, "w.oct.md")
         if os.path.exists(p):
